@@ -350,10 +350,10 @@ class SVGLexicalParser:
             if cmd is None:
                 return
             elif cmd == "z" or cmd == "Z":
-                if self._more():
-                    raise ValueError
                 self.parser.closed(relative=cmd.islower())
                 self.inline_close = None
+                if self._more():
+                    raise ValueError
                 continue
             elif cmd == "m":
                 if not self._more():
